@@ -247,6 +247,15 @@ func runC03(c *vk.Ctx) {
 					c.Violate("C03.curve_direction", sig, "swap of %s stopped at the price limit with in %s out %s; the exact curve up to the limit takes %s and pays %s", amount, rec.in, rec.out, wk.idealIn.FloatString(6), wk.idealOut.FloatString(6))
 					return
 				}
+				// and both sides stay within the rounding bound of the walk up to the limit: the trader is charged what the
+				// curve consumed, not what was offered
+				bIn, bOut := c03Bound(wk, zfo, false, st.spread), c03Bound(wk, zfo, true, st.spread)
+				gapIn, gapOut := new(big.Rat).Sub(gi, wk.idealIn), new(big.Rat).Sub(wk.idealOut, gOut)
+				if gapIn.Cmp(bIn) > 0 || gapOut.Cmp(bOut) > 0 {
+					sig["clause"] = "at_price_limit"
+					c.Violate("C03.rounding_bound", sig, "swap of %s stopped at the price limit with in %s out %s; the exact curve up to the limit takes %s and pays %s: off by %s / %s, rounding bounds %s / %s (%d steps)", amount, rec.in, rec.out, wk.idealIn.FloatString(6), wk.idealOut.FloatString(6), gapIn.FloatString(6), gapOut.FloatString(6), bIn.FloatString(3), bOut.FloatString(3), len(wk.steps))
+					return
+				}
 				cls("executed-to-limit")
 				return
 			}
